@@ -30,6 +30,12 @@ def gen_cases(rng, n):
             if r["type"] != "FEE":
                 r["crypto_out_no_fee"] += rng.choice([4, 5, 6, 10, 11])
                 r.pop("crypto_out_with_fee", None)
+        # an exchange-supplied crypto_out_with_fee that differs slightly from amount + fee (rounded by the exchange): the
+        # account is debited by amount + fee whatever that column says
+        if k % 7 == 3:
+            for r in c["outs"]:
+                if r["type"] != "FEE" and rng.chance(60):
+                    r["crypto_out_with_fee"] = max(1, r["crypto_out_no_fee"] + r["crypto_fee"] + rng.choice([-1000, -6, 6, 11, 1000, 10 ** 8]))
         cases.append(c)
     return cases
 
